@@ -48,6 +48,7 @@ type Contract struct {
 	NoPanic  []*Clause // nopanic [tag] when <expr> ; expr may be nil (true)
 	Loops    map[string]*LoopSpec
 	Trusted  bool // contract assumed, body not verified (listed as assumption)
+	Functional bool // result is a function of the arguments only (checked: the body reads no chain state); callers and specs see F(args)
 	TrustWhy string
 	Term     []*Clause // terminates [tag]
 	File     string
@@ -91,7 +92,7 @@ type Specs struct {
 }
 
 var clauseKW = map[string]bool{"store": true, "pure": true, "axiom": true, "func": true, "requires": true, "ensures": true,
-	"modifies": true, "nopanic": true, "loop": true, "terminates": true, "trusted": true, "lemma": true, "accessor": true, "package": true, "param": true}
+	"modifies": true, "nopanic": true, "loop": true, "terminates": true, "trusted": true, "lemma": true, "accessor": true, "package": true, "param": true, "functional": true}
 
 var tagRe = regexp.MustCompile(`^\s*\[([A-Za-z0-9_.\-]+)\]`)
 
@@ -404,6 +405,8 @@ func (sp *Specs) loadFile(repo, file string) error {
 			case "trusted":
 				cur.Trusted = true
 				cur.TrustWhy = r.text
+			case "functional":
+				cur.Functional = true
 			case "loop":
 				fs := strings.Fields(r.text)
 				if len(fs) < 2 {
